@@ -48,6 +48,7 @@ type simCfg struct {
 	CrashAfter  int    `json:"crash_after"` // C07: kill the manager after its n-th external call once a request is running (0 = off)
 	Successor   string `json:"successor"`   // C07: "same" | "other"
 	SlowHost    string `json:"slow_host"`   // a lagging replica ("" = none)
+	SlowPeriod  int    `json:"slow_period"` // its replication moves every n-th round of 500 ms (8 = a few seconds behind, 120 = a minute: longer than a failover takes)
 	Chaos       string `json:"chaos"`       // C20: ill-formed coordination content / hostile environment applied after warm-up
 	MgrSwitch   bool   `json:"manager_switchover"` // manager_switchover: a manager that lost sight of the master and of the quorum steps down
 }
@@ -474,7 +475,7 @@ func (s *sim) request() {
 	}
 	if s.cfg.SlowHost != "" && s.cfg.Request == "to:"+s.cfg.SlowHost {
 		// ask the lagging replica to take over while it really is behind: in the middle of its replication cycle
-		for i := 0; i < 40 && s.W.ReplRound()%8 != 4; i++ {
+		for i := 0; i < 300 && s.W.ReplRound()%max(s.cfg.SlowPeriod, 8) != max(s.cfg.SlowPeriod, 8)/2; i++ {
 			s.runFor(500 * time.Millisecond)
 		}
 	}
@@ -699,7 +700,7 @@ func simBubble(t *testing.T, cfg simCfg, idx int, dir string, lineOut *map[strin
 				_, isC := s.casc[h]
 				nd.SemiSlave = !isC
 				if cfg.SlowHost == h {
-					nd.Slow, nd.InstantRepl = 8, false // a replica that lags a few seconds behind
+					nd.Slow, nd.InstantRepl = max(cfg.SlowPeriod, 8), false // a replica that lags behind: what it acknowledged sits in its relay log
 				}
 			}
 		}
@@ -1029,8 +1030,9 @@ func simGrid(r *rand.Rand, n int) []simCfg {
 			FailDelay: []int{0, 0, 10, 30}[r.Intn(4)], OffsetMs: r.Intn(5000), DurationS: []int{0, 3, 20, 90}[r.Intn(4)]}
 		c.Cascade = c.N >= 2 && r.Intn(4) == 0
 		c.MgrSwitch = r.Intn(3) == 0
-		if c.N >= 3 && r.Intn(2) == 0 {
+		if r.Intn(2) == 0 { // also in a two-node cluster: the only acknowledging replica applies late (received ≠ applied)
 			c.SlowHost = fmt.Sprintf("h%d", 2+r.Intn(c.N-1))
+			c.SlowPeriod = []int{8, 8, 120}[r.Intn(3)]
 		}
 		c.Fault = faults[i%len(faults)]
 		hosts := []string{}
@@ -1055,6 +1057,14 @@ func simGrid(r *rand.Rand, n int) []simCfg {
 				c.Request = "from:h1"
 			}
 		}
+		out = append(out, c)
+	}
+	// a family the random grid hits too rarely: the master is lost while what the replicas acknowledged is still only in a
+	// relay log (received, not applied) — the promoted node must wait for it, nothing received may be thrown away
+	for i := 0; i < max(n/12, 4); i++ {
+		c := simCfg{N: 2 + i%2, WaitCount: 1 + r.Intn(2), Failover: true, MasterFirst: r.Intn(2) == 0, FailDelay: []int{0, 10}[r.Intn(2)],
+			OffsetMs: r.Intn(5000), DurationS: []int{0, 90}[r.Intn(2)], Fault: []string{"crash_mysql", "isolate"}[r.Intn(2)], Target: "h1",
+			SlowHost: "h2", SlowPeriod: 120}
 		out = append(out, c)
 	}
 	return out
